@@ -98,6 +98,10 @@ class HierDictDocument(DictDocument):
                 doc = doc.get(class_name, None)
 
             if doc is None:
+                # no arguments at all: what must occur is still missing
+                if self.validator is self.SOFT_VALIDATION:
+                    self._check_freq_dict(body_class, defaultdict(int))
+
                 result_message = [None] * len(body_class._type_info)
             else:
                 result_message = self._doc_to_object(ctx, body_class, doc,
